@@ -119,10 +119,10 @@ impl Check for C06 {
         tier.pick(2400, 150_000)
     }
     fn rule(&self) -> String {
-        "case = a seeded multi-replica history, then one failing call on a victim replica that may hold a pending queue (related and unrelated held-back changes) and conflicts: (0) apply_changes with a change whose (actor, seq) is already applied with another hash (built by a twin replica with the same actor) alone / inside a batch with good changes; (1) load_incremental of a valid change chunk with a flipped byte, truncated, or a good chunk followed by a bad one; (2) an invalid transaction operation (unknown object, wrong key kind, out-of-range index, increment of a non-counter, mark end out of range) inside an open transaction; (3) merge with a document that holds a conflicting seq. Whenever the call returns Err: heads, applied set, OBS snapshot, pending queue, missing deps, pending_ops and H3 must equal the capture before; the same continuation (4 edits + commit + later delivery of the queue's missing dependency) on the document and on a clone taken before must give the same change hash, heads and state; and after every case load(save()) must succeed and equal the document. Non-trivial = the failing call happened with a non-empty queue or an open transaction; distinct by (failure kind, pre-state class, error text).".into()
+        "case = a seeded multi-replica history, then one failing call on a victim replica that may hold a pending queue (related and unrelated held-back changes) and conflicts: (0) apply_changes with a change whose (actor, seq) is already applied with another hash (built by a twin replica with the same actor) alone / inside a batch with good changes; (1) load_incremental of a valid change chunk with a flipped byte, truncated, or a good chunk followed by a bad one; (2) an invalid transaction operation (unknown object, wrong key kind, out-of-range index, increment of a non-counter, mark end out of range) inside an open transaction, in a third of the cases a transaction scoped to older heads (isolate); (3) merge with a document that holds a conflicting seq. Whenever the call returns Err: heads, applied set, OBS snapshot, pending queue, missing deps, pending_ops and H3 must equal the capture before; the same continuation (4 edits + commit + later delivery of the queue's missing dependency) on the document and on a clone taken before must give the same change hash, heads and state; the document after the failed call and a reload of it must treat the next genuine change of the rejected change's actor identically; and after every case load(save()) must succeed and equal the document. Non-trivial = the failing call happened with a non-empty queue or an open transaction; distinct by (failure kind, pre-state class, error text).".into()
     }
     fn required_counters(&self) -> Vec<&'static str> {
-        vec!["errors_observed_dupseq", "errors_observed_load_incremental", "errors_observed_tx_op", "failing_calls_with_nonempty_queue", "continuations_compared", "reload_checks"]
+        vec!["errors_observed_dupseq", "errors_observed_load_incremental", "errors_observed_tx_op", "failing_calls_with_nonempty_queue", "continuations_compared", "reload_checks", "scoped_transactions", "reload_differentials_after_failed_call"]
     }
     fn run_case(&self, cx: &mut Ctx, case: u64, rng: &mut Rng) {
         let enc = enc_for(rng);
@@ -235,8 +235,29 @@ impl Check for C06 {
                         if !unchanged(cx, kname, &before, &mut victim, &e, &[f.hash()], detail.clone()) {
                             return;
                         }
-                        if !same_future(cx, kname, &mut victim, &mut before_clone, &gs, cont_seed, &later, detail) {
+                        if !same_future(cx, kname, &mut victim, &mut before_clone, &gs, cont_seed, &later, detail.clone()) {
                             return;
+                        }
+                        // the document after the failed call vs a reload of it: both must treat a later,
+                        // valid change of the rejected change's actor the same way (the next seq of that
+                        // actor, built on top of the genuine change c) — internal bookkeeping left behind
+                        // by the failed call would make them differ
+                        if let Ok(mut reload) = load_enc(&victim.save(), enc) {
+                            let mut author = fresh(enc, 47);
+                            let have: Vec<Change> = victim.get_changes(&[]);
+                            if author.apply_changes(have).is_ok() {
+                                author.set_actor(c.actor_id().clone());
+                                let _ = author.put(automerge::ROOT, "genuine-next", 1);
+                                if let Some(next) = author.commit_with(CommitOptions::default().with_time(11)).and_then(|h| author.get_change_by_hash(&h)) {
+                                    cx.count("reload_differentials_after_failed_call");
+                                    let r1 = victim.clone().apply_changes([next.clone()]).map_err(|e| e.to_string());
+                                    let r2 = reload.apply_changes([next.clone()]).map_err(|e| e.to_string());
+                                    if r1 != r2 {
+                                        cx.violation(&format!("later-behaviour-differs|{kname}|vs-reload"), format!("after a failed {kname}, a later valid change of actor {} (seq {}) is handled differently by the document ({r1:?}) and by load(save()) of it ({r2:?})", next.actor_id().to_hex_string(), next.seq()), detail);
+                                        return;
+                                    }
+                                }
+                            }
                         }
                     }
                     Ok(()) => {
@@ -321,9 +342,19 @@ impl Check for C06 {
                 }
             }
             _ => {
-                // invalid transaction operations inside an open transaction
+                // invalid transaction operations inside an open transaction; in a third of the cases the
+                // transaction is scoped to older heads (isolate), where "in range" means in range of
+                // the state at those heads
                 let mut g = gs.clone();
                 g.profile.extreme_indexes = false;
+                let known: BTreeSet<ChangeHash> = victim.get_changes(&[]).iter().map(|c| c.hash()).collect();
+                let older: Vec<Vec<ChangeHash>> = w.head_sets.iter().filter(|h| !h.is_empty() && h.iter().all(|x| known.contains(x))).cloned().collect();
+                if !older.is_empty() && rng.chance(35) {
+                    victim.commit();
+                    let h = rng.pick(&older).clone();
+                    victim.isolate(&h);
+                    cx.count("scoped_transactions");
+                }
                 for _ in 0..rng.range(1, 4) {
                     random_edit(&mut victim, rng, &mut g);
                 }
@@ -351,6 +382,7 @@ impl Check for C06 {
                     }
                 }
                 victim.commit();
+                victim.integrate();
                 if !check_h3(cx, &victim, "after transaction with rejected ops") {
                     return;
                 }
